@@ -100,6 +100,7 @@ class Path:
         self.end: str = 'fallthrough'              # return | raise | fallthrough
         self.raise_text = ''
         self.events: List[Tuple[str, Any]] = []
+        self.afacts: List[Aff] = []          # affine forms known to be == 0 on this path
 
     def fork(self):
         p = Path()
@@ -107,6 +108,7 @@ class Path:
         p.conds = list(self.conds)
         p.locs = list(self.locs)
         p.events = list(self.events)
+        p.afacts = list(self.afacts)
         return p
 
 
@@ -178,6 +180,10 @@ class Interp:
                 o = Obj(f"{self.text_of(base)}[{self.text_of(lo) if lo is not None else ''}:{self.text_of(hi) if hi is not None else ''}]")
                 o.fields = {'__slice_base__': base, '__lo__': lo, '__hi__': hi}
                 return o
+            if isinstance(idx, Aff) and (not isinstance(base, Aff) or (len(base.t) == 1 and base.c == 0)):
+                o = Obj(f"{self.text_of(base)}[{self.text_of(idx)}]")
+                o.fields = {'__slice_base__': base, '__lo__': idx, '__hi__': idx + 1, '__index__': idx}
+                return o
             return self._leaf(f"{self.text_of(base)}[{self.text_of(idx)}]")
         if isinstance(e, ast.BinOp):
             l, r = self.ev(p, e.left), self.ev(p, e.right)
@@ -218,7 +224,7 @@ class Interp:
         nm = call_name(c)
         args = [self.ev(p, a) for a in c.args if not isinstance(a, ast.Starred)]
         kwargs = {k.arg: self.ev(p, k.value) for k in c.keywords if k.arg}
-        if nm in ('int',) and len(args) == 1:
+        if nm in ('int', 'str') and len(args) == 1 and not kwargs:
             return args[0]
         if nm in self.models:
             return self.models[nm](self, p, c, args, kwargs)
@@ -324,6 +330,10 @@ class Interp:
             a, b = p.fork(), p.fork()
             a.conds.append((unparse(st.test), True))
             b.conds.append((unparse(st.test), False))
+            if isinstance(st.test, ast.Compare) and len(st.test.ops) == 1 and isinstance(st.test.ops[0], (ast.Eq, ast.NotEq)):
+                l, r = self.ev(p.fork(), st.test.left), self.ev(p.fork(), st.test.comparators[0])
+                if isinstance(l, Aff) and isinstance(r, Aff):
+                    (a if isinstance(st.test.ops[0], ast.Eq) else b).afacts.append(l - r)
             return self.run_block([a], st.body) + self.run_block([b], st.orelse)
         if isinstance(st, ast.Return):
             p.ret = self.ev(p, st.value) if st.value is not None else None
@@ -377,3 +387,18 @@ def model_gene2g(S='S', E='E'):
         x = lift(x)
         return (Aff.sym(S) + x) if interp.strand == 1 else (Aff.sym(E) - 1 - x)
     return m
+
+
+def equal_mod(a: Aff, b: Aff, afacts: List[Aff]) -> bool:
+    """a == b given forms known to be zero (tries +-1 multiples of single facts and pairs)."""
+    d = a - b
+    if d == Aff(0):
+        return True
+    cands = [Aff(0)]
+    for f in afacts:
+        cands += [f, -f]
+    for x in cands:
+        for y in cands:
+            if d + x + y == Aff(0):
+                return True
+    return False
